@@ -232,8 +232,12 @@ def contribsH (j : Json) : R Json := do
   return jObj [("propagate", jo (propagateArgs path tx0)),
                ("loop", jList jo (loopArgs (roadmOsnr path) txs))]
 
+def requestCheckH (j : Json) : R Json := do
+  return jOpt jStr (requestCheck (← fBool j "trx_known") (← fBool j "mode_given") (← fBool j "mode_found")
+    (← fInt j "baud") (← fInt j "min_spacing") (← fInt j "spacing"))
+
 def handlers : List (String × Handler) :=
-  [("c13.update_snr", updateSnrH), ("c13.calc_penalties", calcPenaltiesH), ("c13.normalise", normaliseH),
+  [("c13.request_check", requestCheckH), ("c13.update_snr", updateSnrH), ("c13.calc_penalties", calcPenaltiesH), ("c13.normalise", normaliseH),
    ("c13.fixed", fixedH), ("c13.select", selectH), ("c13.auto_reason", autoReasonH), ("c13.contribs", contribsH)]
 
 end Gnpy.Drv.C13
